@@ -9,6 +9,7 @@
 #include <AIToolbox/Utils/Probability.hpp>
 #include <AIToolbox/POMDP/Types.hpp>
 #include <AIToolbox/POMDP/TypeTraits.hpp>
+#include <AIToolbox/POMDP/Utils.hpp>
 
 namespace AIToolbox::POMDP {
     /**
